@@ -68,7 +68,7 @@ func sameFloat(a float64, b float64) bool { return a == b || (a != a && b != b) 
     except infixHelper
     serves C09, C04, C10
     assume-safety
-    assumepre expression, infixHelper, IndexValue, IsEqual
+    assumepre expression, infixHelper, IndexValue, IsEqual, checkCancelation
     dyncall-preserves self.callStackSize, self.callStackLimitSize
     ensures @depth-balanced self.callStackSize == old(self.callStackSize) && self.callStackLimitSize == old(self.callStackLimitSize)
     ensures @polls-never-lost ghost(polls) >= old(ghost(polls))
@@ -81,6 +81,9 @@ func sameFloat(a float64, b float64) bool { return a == b || (a != a && b != b) 
 
 /*@ func (self *Interpreter) checkCancelation
     serves C10
+    requires self.cancelCtx != nil && *self.cancelCtx != nil
+    ensures @cancellation-is-seen cancelled(*self.cancelCtx) <==> result != nil
+    ensures @termination result != nil ==> *result != nil && (*result).Kind() == value.TerminateInterruptKind
     ghostset polls = ghost(polls) + 1
 @*/
 
@@ -117,7 +120,7 @@ func sameFloat(a float64, b float64) bool { return a == b || (a != a && b != b) 
 /*@ func (self *Interpreter) expression
     serves C02, C04, C09, C10
     assume-safety
-    assumepre expression, infixHelper, IndexValue, IsEqual
+    assumepre expression, infixHelper, IndexValue, IsEqual, checkCancelation
     dyncall-preserves self.callStackSize, self.callStackLimitSize
     requires node != nil
     assumed-ensures ret1 == nil ==> ret0 != nil && *ret0 != nil && valueOfType(*ret0, node.Type())
